@@ -67,6 +67,12 @@ def gen_cases(tier, rng):
             for k in range(N):
                 pos[k] = [r3((k + 1) * rng.uniform(5, 15)), 0.0, 0.0]
                 dip[k] = [0.0, r3(rng.uniform(1, 8)), 0.0] if k % 2 == 0 else [0.0, 0.0, r3(rng.uniform(1, 8))]
+        if i % 7 == 3 and N >= 3:
+            # two molecules at the same place (e.g. the Qy and Qx transitions of one pigment), not the last pair of their row
+            kind = "coincident"
+            a0 = int(rng.integers(0, N - 2))
+            b0 = int(rng.integers(a0 + 1, N - 1))
+            pos[b0] = list(pos[a0])
         # how the user hands over the geometry: float arrays, plain lists/tuples, integer grid coordinates (Python ints or int arrays)
         ptype = ["float-array", "int-list", "float-list", "int-array", "mixed"][i % 5]
         if ptype.startswith("int") or ptype == "mixed":
@@ -291,6 +297,11 @@ def run_case(case, ctx):
     nz = False
     for a in range(N):
         for b in range(a + 1, N):
+            if float(numpy.linalg.norm(numpy.array(case["pos"][a], dtype=float) - numpy.array(case["pos"][b], dtype=float))) == 0.0:
+                # two transitions of one pigment modelled as two molecules at one place: the point-dipole formula says nothing about this
+                # pair (the library leaves it uncoupled); every other pair is still to follow the formula
+                ctx.event("coincident_pairs_skipped")
+                continue
             ref = U.dipole_dipole_int(case["dip"][a], case["dip"][b], case["pos"][a], case["pos"][b], case["epsr"])
             big = abs(U.dipole_dipole_int(numpy.abs(case["dip"][a]), numpy.abs(case["dip"][b]), case["pos"][a], case["pos"][b], case["epsr"])) + abs(ref)
             d1, d2 = numpy.linalg.norm(case["dip"][a]), numpy.linalg.norm(case["dip"][b])
